@@ -491,7 +491,8 @@ def isbuiltintype(
 @compat.cache
 def isstdlibtype(obj: type) -> compat.TypeIs[type[STDLibtypeT]]:
     if isoptionaltype(obj):
-        nargs = tp.get_args(obj)[:-1]
+        # `None` may be declared in any position, not only last.
+        nargs = (a for a in tp.get_args(obj) if a not in (None, type(None)))
         return all(isstdlibtype(a) for a in nargs)
     if isuniontype(obj):
         args = tp.get_args(obj)
